@@ -299,6 +299,7 @@ def parseInstr (toks : List String) : Option Instr :=
 
 def parseEffect (toks : List String) : Option Effect :=
   match toks with
+  | ["dropvar", v] => do pure (.dropVar (← parseIdx "v" v))
   | ["setvar", v, x] => do pure (.setVar (← parseIdx "v" v) (← parseVal x))
   | ["modvar", v, d] => do pure (.modifyVar (← parseIdx "v" v) (← parseInt? d))
   | ["updvar", v, d] => do pure (.updateVar (← parseIdx "v" v) (← parseInt? d))
